@@ -479,8 +479,15 @@ var wsN int
 func (w *worker) transports() {
 	h := handler.New(w.env.ES)
 	h.AddTransport(transport.Websocket{KeepAlivePingInterval: 5 * time.Millisecond, InitTimeout: 60 * time.Millisecond, Upgrader: websocket.Upgrader{CheckOrigin: func(*http.Request) bool { return true }}})
-	h.AddTransport(transport.SSE{})
-	h.AddTransport(transport.MultipartMixed{})
+	// optional tickers of the streaming transports: a keep-alive ping for SSE, and (every second
+	// worker) a multipart flush interval far longer than any request, so that a goroutine that only
+	// looks at its stop signal when the ticker fires outlives the request visibly
+	h.AddTransport(transport.SSE{KeepAlivePingInterval: 3 * time.Millisecond})
+	mm := transport.MultipartMixed{}
+	if len(w.name)%2 == 0 {
+		mm.DeliveryTimeout = time.Hour
+	}
+	h.AddTransport(mm)
 	h.AddTransport(transport.GET{})
 	h.AddTransport(transport.POST{})
 	wrapped := http.HandlerFunc(func(rw http.ResponseWriter, r *http.Request) {
